@@ -7,6 +7,7 @@ import (
 
 	kruiseappsv1alpha1 "github.com/openkruise/kruise-api/apps/v1alpha1"
 	rolloutsv1beta1 "github.com/openkruise/rollouts/api/v1beta1"
+	"github.com/openkruise/rollouts/pkg/util"
 	apps "k8s.io/api/apps/v1"
 	corev1 "k8s.io/api/core/v1"
 	metav1 "k8s.io/apimachinery/pkg/apis/meta/v1"
@@ -60,6 +61,11 @@ func workloadImage(w *World, sc *Scenario) string {
 		}
 	case "Deployment":
 		d := &apps.Deployment{}
+		if w.Get(d, sc.ns(), AppName) {
+			return d.Spec.Template.Spec.Containers[0].Image
+		}
+	case "StatefulSet":
+		d := &apps.StatefulSet{}
 		if w.Get(d, sc.ns(), AppName) {
 			return d.Spec.Template.Spec.Containers[0].Image
 		}
@@ -207,6 +213,17 @@ func AllUserActions() []*UserAction {
 				})
 			},
 			After: func(mon MonState) { mon["req.editPlan"] = "1" }},
+		{Name: "editPlanLow", OneShot: true, // every step becomes the absolute count 1: below whatever is exposed after step one
+			Guard: func(w *World, sc *Scenario, mon MonState) bool { return inProgress(getRollout(w, sc)) },
+			Do: func(w *World, sc *Scenario) error {
+				return updateRolloutSpec(w, sc, func(ro *rolloutsv1beta1.Rollout) {
+					steps := ro.Spec.Strategy.GetSteps()
+					for i := range steps {
+						steps[i].Replicas = parseIS("1")
+					}
+				})
+			},
+			After: func(mon MonState) { mon["req.editPlan"] = "1" }},
 		{Name: "editPlanMore", OneShot: true, // raise every step's replicas (percent +20, capped at 100)
 			Guard: func(w *World, sc *Scenario, mon MonState) bool { return inProgress(getRollout(w, sc)) },
 			Do: func(w *World, sc *Scenario) error {
@@ -289,9 +306,31 @@ func AllUserActions() []*UserAction {
 				return w.Raw.Delete(context.TODO(), o.(client.Object))
 			},
 			After: func(mon MonState) { mon["req.exit"] = "workload-deleted" }},
+		{Name: "deleteCanary", OneShot: true, NoCost: true, // someone deletes the canary Deployment of a canary-style release (it turns Terminating: it carries the BatchRelease finalizer)
+			Guard: func(w *World, sc *Scenario, mon MonState) bool {
+				return inProgress(getRollout(w, sc)) && liveCanaryDeployment(w, sc) != nil
+			},
+			Do: func(w *World, sc *Scenario) error {
+				return w.Raw.Delete(context.TODO(), liveCanaryDeployment(w, sc))
+			},
+			After: func(mon MonState) { mon["req.deleteCanary"] = "1" }},
 		jump(-1), jump(0), jump(1), jump(2), jump(3), jump(4), jump(2147483647),
 	}
 	return acts
+}
+
+// liveCanaryDeployment returns the (not yet deleted) canary Deployment of a canary-style Deployment release.
+func liveCanaryDeployment(w *World, sc *Scenario) *apps.Deployment {
+	if sc.Kind != "Deployment" || sc.Style != "canary" {
+		return nil
+	}
+	for _, o := range w.Store.PeekAll("deployments") {
+		d := o.(*apps.Deployment)
+		if d.Namespace == sc.ns() && d.Labels[util.CanaryDeploymentLabel] != "" && d.DeletionTimestamp == nil {
+			return d.DeepCopy()
+		}
+	}
+	return nil
 }
 
 // ---------------------------------------------------------------------------------------------
@@ -369,6 +408,11 @@ func getWorkload(w *World, sc *Scenario) runtime.Object {
 		}
 	case "Deployment":
 		d := &apps.Deployment{}
+		if w.Get(d, sc.ns(), AppName) {
+			return d
+		}
+	case "StatefulSet":
+		d := &apps.StatefulSet{}
 		if w.Get(d, sc.ns(), AppName) {
 			return d
 		}
